@@ -10,6 +10,9 @@ RULE = ("operand pairs over integers straddling every boundary (isize, usize, 2^
 ASSUMPTIONS = ["float results are compared bit-for-bit against SpecFloat arithmetic (model); NaN payloads collapsed"]
 
 OPS = "[($a+$b), ($a-$b), ($a*$b), ($a/$b), (try ($a%$b) catch \"E\"), (-$a)]"
+# the same with operands that were just computed (not shared with a variable): results must not depend on who else holds the value
+OPS_FRESH = "[(($a+0)+$b), ($a-($b+0)), (($a+0)*($b+0)), (($a+0)/$b), (try ($a%($b+0)) catch \"E\"), (-($a+0))]"
+OPS_FRESH2 = "[($a+($b+0)), (($a+0)-($b+0)), ($a*($b+0)), ($a/($b+0)), (try (($a+0)%$b) catch \"E\"), (-($a*1))]"
 OPS_ERR = "[(try ($a+$b) catch \"E\"), (try ($a-$b) catch \"E\"), (try ($a*$b) catch \"E\"), (try ($a/$b) catch \"E\"), (try ($a%$b) catch \"E\"), (try (-$a) catch \"E\")]"
 CONSUMERS = [
     "[1,2,3,4,5] | .[$n]", "[1,2,3,4,5] | .[$n:]", "[1,2,3,4,5] | .[:$n]", "\"abcde\" | .[$n:]",
@@ -46,7 +49,8 @@ def gen(ctx):
             if tier == "quick" and rng.random() < 0.6:
                 continue
             a, b = mk_int(rng, x, ra), mk_int(rng, y, rb)
-            cases.append(dict(filter=OPS, vars=[("a", a), ("b", b)], kind="int-int", ints=(x, y)))
+            r = rng.random()
+            cases.append(dict(filter=OPS if r < 0.5 else (OPS_FRESH if r < 0.8 else OPS_FRESH2), vars=[("a", a), ("b", b)], kind="int-int", ints=(x, y)))
     nums = NUM_ATOMS
     for a, b in itertools.product(nums, repeat=2):
         if tier == "quick" and rng.random() < 0.7:
